@@ -11,7 +11,7 @@ import impl, tlc as T
 from tlaval import parse_value, to_json, _freeze
 from core import Machinery
 
-CA, XA = ("10.9.0.1", 5001), ("66.6.6.6", 666)
+CA, XA, WARM = ("10.9.0.1", 5001), ("66.6.6.6", 666), ("10.9.0.9", 5009)
 REAL = {"ca": CA, "xa": XA}
 
 
@@ -22,10 +22,30 @@ class HsWorld:
         self.C = w.C
         self.crypto = impl.mod("crypto")
         K = self.crypto.EllipticCurvePrivateKey
-        self.cl = w.add_client(1, CA, conn_timeout=30.0)
+        # an earlier, honest session of the SAME UdpClient object (same pinned key object) from another address: whatever the client remembers from it -
+        # and the signature the attacker saw on the wire - is available in the session under test
+        self.cl = w.add_client(1, WARM, conn_timeout=30.0)
+        for _ in range(12):
+            w.tick()
+            if self.cl.connected():
+                break
+        if not self.cl.connected():
+            raise Machinery("the warm-up session did not connect")
+        S0 = impl.mod("serializable")
+        from io import BytesIO as _B
+        h0 = next(d for d in w.sent_to[WARM] if d[12] == 2)
+        st0 = _B(h0[22:])
+        st0.read(2)
+        S0.deserialize_value(st0)
+        S0.deserialize_value(st0)
+        self.sig0 = S0.deserialize_value(st0)
+        self.cl.forceDisconnect()
+        w.clients[1]["addr"] = CA
+        w.reconnect(1)
         w.clients[1]["cut"] = True
         w.clients[1]["deaf"] = True
         w.tick()          # the client emits its hello (captured, not delivered)
+        self.ev0 = len(w.ev)
         self.a_priv = K.new()
         self.A_root = K.new()
         self.sessions = {}          # "s1"/"s2" -> dict(conn, addr, hello datagram)
@@ -101,7 +121,7 @@ class HsWorld:
                 root = self.A_root.getPublicKey().getBytes()
             elif sig["by"] == "R":
                 # a signature copied from a genuine hello, now attached to other parameters
-                signature = genuine[0]["sig"] if genuine else b"\x30\x06\x02\x01\x01\x02\x01\x01"
+                signature = genuine[0]["sig"] if genuine else self.sig0        # (no such session in this run: the signature of the client's earlier session)
                 root = self.w.ctxt.server_root_key.getPublicKey().getBytes()
             else:
                 signature = bytearray(self.A_root.sign(payload))
@@ -202,7 +222,7 @@ class HsWorld:
                 c = real[REAL[a]]
                 if c.session_key_bytes != self.key(spec[pool][a]["key"]) or c.token != self.token(spec[pool][a]["token"]):
                     diffs.append("server %s[%s] holds another key/token than the specification's" % (pool, a))
-        ev = [("ca" if e["a"] == self.w.aid(CA) else "xa") for e in self.w.ev if e["ev"] == "h" and e["what"] == "connect"]
+        ev = [("ca" if e["a"] == self.w.aid(CA) else "xa") for e in self.w.ev[self.ev0:] if e["ev"] == "h" and e["what"] == "connect"]
         if ev != list(spec["connected"]):
             diffs.append("connect events %s, specification %s" % (ev, list(spec["connected"])))
         return diffs
@@ -404,7 +424,7 @@ def _server_row(job):
             w.w.inject(m, CA if kind == 2 else XA, kind="model")
             w.w.tick()
             w.w.tick()
-        ev = [e["a"] for e in w.w.ev if e["ev"] == "h" and e["what"] == "connect"]
+        ev = [e["a"] for e in w.w.ev[w.ev0:] if e["ev"] == "h" and e["what"] == "connect"]
         srv = int(w.w.aid(CA) in ev)
         other = int(any(a != w.w.aid(CA) for a in ev))
         conn = w.w.ctxt.connections.get(CA)
